@@ -1,25 +1,85 @@
 //! variable write world (C08)
 //!
-//! Entry points used by `plan.rs` (keep these four signatures).
+//! Scenario (details and the reference model R4 in `world.rs`): a target variable `T: i32`,
+//! a trigger variable `G`, a reader of `T` below the writer's height (`low`, height 1), a
+//! reader above it (`high`, `T.map2(writer, ..)`, height 3+), observers on both readers (from
+//! the start, or created later by the action `ObserveReaders` = "unobserved variable"), and a
+//! scripted writer that runs a fixed *script* (sequence of write operations) on `T`.
+//!
+//! Actions: `Stabilise`, `Trigger` (fire the writer at the next stabilise), `OutsideWrite(op)`,
+//! `ObserveReaders`, `Flip` (site `dropped` only), `StabiliseUntilStable`
+//! (`while !is_stable() { stabilise() }`, cap 10).  `T.get()` and `is_stable()` are read after
+//! every action, so there is no separate read action.
+//!
+//! Families (`hx dev vars <family> <depth> [noprune]`); one unit = one program:
+//!
+//! | family          | programs | what                                                              | depth quick (rel / dbg) | thorough |
+//! |-----------------|---------:|-------------------------------------------------------------------|-------------------------|----------|
+//! | `c08/outside`   |        2 | no scripted writer, all 5 top-level ops; T observed / unobserved  | 8 / 8                   | `-full` 8 |
+//! | `c08/node`      |      620 | 155 scripts x {map fn, bind closure} x {observed, unobserved}     | 6 / 5                   | 7 (dbg 6) + `-full` 5 |
+//! | `c08/handler`   |      620 | 155 scripts x {handler, map fn + handler on it} x {obs, unobs}    | 6 / 5                   | 7 (dbg 6) + `-full` 5 |
+//! | `c08/selffeed`  |      310 | 155 scripts x writer that reads T (`if t < 4 { script }`)         | 6 / 5                   | 8 (dbg 6) + `-full` 5 |
+//! | `c08/dropped`   |      310 | 155 scripts x writer owning the only Var handle, freed by a bind  | 7 / 6                   | 8 (dbg 7) + `-full` 6 |
+//! | `<family>-full` |   x 5.2  | 804 scripts (5 symbols, length <= 4; 7 symbols, length <= 2), all five top-level ops (`c08/outside-full`: 7 top-level ops) | - | see above |
+//!
+//! Measured single-core (`hx dev`, machine under load): rel `c08/node 6` 1.0e6 transitions
+//! 35 s; `c08/handler 6` 1.03e6 / 26 s; `c08/selffeed 6` 1.6e5 / 6 s; `c08/dropped 7` 7.8e5 /
+//! 25 s; `c08/outside 8` 1.7e4 / 0.5 s; dbg `node 5` 4.6e5 / 14 s, `handler 5` 4.7e5 / 13 s,
+//! `selffeed 5` 9.7e4 / 4 s, `dropped 6` 3.5e5 / 17 s  (quick total ~150 core-s).  Thorough:
+//! `node-full 5` 8.4e6 / 237 s, `handler-full 5` 8.5e6 / 238 s, `selffeed-full 5` 2.6e6 / 63 s,
+//! `dropped-full 6` 1.8e6 / 60 s, `node 7` 2.0e6 / 56 s, `dropped 8` 1.6e6 / 61 s.
+//!
+//! 155 scripts = all sequences of length 1..=3 over {set 5, update +1, modify +1, replace 6,
+//! replace_with(|x| {*x += 1; *x + 10})}.  Script families use the two top-level symbols
+//! {set 5, update} (the top-level alphabet is exercised in full by `c08/outside`).
+//!
+//! The `tier` argument is ignored: the family *name* selects the size (as in the graph world,
+//! `hx dev` always passes `Tier::Quick`).  Pruning is sound here (closures hold no hidden
+//! state except the one-shot slot of site `dropped`, which the model text records), `noprune`
+//! gives plain E1.
+
+pub mod world;
 
 use crate::core::{Cfg, Violation};
 use crate::explore::{Marker, Stats};
 use crate::plan::{JobDef, Tier};
 use serde_json::Value as Json;
+use std::cell::RefCell;
+use std::collections::HashMap;
+use std::rc::Rc;
 use std::time::Instant;
+use world::{Prog, VarsWorld};
 
-pub fn units(_job: &JobDef, _tier: Tier) -> usize {
-    0
+thread_local! {
+    static CACHE: RefCell<HashMap<String, Rc<Vec<Prog>>>> = RefCell::new(HashMap::new());
 }
 
-pub fn run_unit(_job: &JobDef, _job_ix: u32, _unit: usize, _tier: Tier, _deadline: Option<Instant>, _marker: &Marker, stats: &mut Stats) {
-    stats.machinery_errors.push("world not implemented".into());
+fn progs(job: &JobDef) -> Rc<Vec<Prog>> {
+    if let Some(p) = CACHE.with(|c| c.borrow().get(&job.family).cloned()) {
+        return p;
+    }
+    let p = Rc::new(world::family(&job.family));
+    CACHE.with(|c| c.borrow_mut().insert(job.family.clone(), p.clone()));
+    p
 }
 
-pub fn replay(_cfg: &Cfg, _prog: &Json, _history: &[Json]) -> Result<(Vec<(usize, Violation)>, Vec<String>, u64), String> {
-    Err("world not implemented".into())
+pub fn units(job: &JobDef, _tier: Tier) -> usize {
+    crate::driver::units::<VarsWorld>(&progs(job), job)
 }
 
-pub fn history_from_choices(_job: &JobDef, _unit: usize, _tier: Tier, _choices: &[u16]) -> Option<(Json, Vec<Json>)> {
-    None
+pub fn run_unit(job: &JobDef, job_ix: u32, unit: usize, _tier: Tier, deadline: Option<Instant>, marker: &Marker, stats: &mut Stats) {
+    let p = progs(job);
+    if p.is_empty() {
+        stats.machinery_errors.push(format!("vars: unknown family {}", job.family));
+        return;
+    }
+    crate::driver::run_unit::<VarsWorld>(&p, job, job_ix, unit, deadline, marker, stats)
+}
+
+pub fn replay(cfg: &Cfg, prog: &Json, history: &[Json]) -> Result<(Vec<(usize, Violation)>, Vec<String>, u64), String> {
+    crate::driver::replay::<VarsWorld>(cfg, prog, history)
+}
+
+pub fn history_from_choices(job: &JobDef, unit: usize, _tier: Tier, choices: &[u16]) -> Option<(Json, Vec<Json>)> {
+    crate::driver::history_from_choices::<VarsWorld>(&progs(job), job, unit, choices)
 }
